@@ -342,10 +342,9 @@ fn run_inner2(rng: &mut Rng, style: usize, trace: &mut Vec<(usize, Vec<D3>)>) ->
         let (n, bad) = structural_invariants(&eg);
         out.add("invariant_checks", n);
         if let Some((sig, d)) = bad {
-            if sig.contains("not-drained") {
-                out.fail(Fail::new("analysis", sig, format!("after step {step} ({desc}): {d}"), cj));
-                return out;
-            }
+            // with an analysis attached other e-nodes are re-processed after a union: every structural invariant is judged here too
+            out.fail(Fail::new(if sig.contains("not-drained") { "analysis" } else { "inconsistent" }, sig, format!("after step {step} ({desc}): {d}"), cj));
+            return out;
         }
     }
     // C09 with a non-trivial analysis attached: every inserted term is still found by lookup (equal to its handle) and
